@@ -121,14 +121,19 @@ def run(ctx, rep):
             y = df.gen_y(rng, n, structured=False)
             if dk != "logistic":
                 y = y + shift
-            kind = rng.choice(["l1", "wl1", "l1l2", "mcp", "wmcp"])
+            kind = rng.choice(["l1", "wl1", "wl1", "wl1", "l1l2", "mcp", "wmcp"])
             pen = Pen(kind, 1.0, gamma=3.0 if "mcp" in kind else None, l1_ratio=rng.choice([0.3, 0.7, 1.0]) if kind == "l1l2" else None)
             wts = np.ones(p)
+            free = []
             if kind in Pen.WEIGHTED:
                 wts = np.array([rng.choice([0.5, 1.0, 2.0]) for _ in range(p)])
+                if kind == "wl1" and p >= 3 and rng.random() < 0.6:
+                    # unpenalised (zero-weight) features: excluded from the maximum, fitted at and above alpha_max
+                    free = sorted(rng.sample(range(p), rng.randrange(1, min(3, p - 1) + 1)))
+                    wts[free] = 0.0
             if "mcp" in kind:
                 X = solvers.normalise_cols(X, df, np.ones(n))
-            w0, b0 = null_model(df, X, np.ones(n), y, fi)
+            w0, b0 = null_model(df, X, np.ones(n), y, fi, free=free)
             g0 = ref.grad_w(df, X, np.ones(n), y, w0, b0)
             obj = compiled_pen(pen, wts if kind in Pen.WEIGHTED else None)
             amax = call(obj.alpha_max, g0)
@@ -138,13 +143,19 @@ def run(ctx, rep):
                 pen2 = copy.copy(pen)
                 pen2.alpha = amax * fac
                 knobs = dict(tol=1e-9, fit_intercept=fi, max_iter=100)
+                p0 = rng.choice([1, 2, 10]) if not free else rng.choice([1, len(free), len(free), 10])
                 if solver == "AndersonCD":
-                    knobs.update(max_epochs=5000, p0=rng.choice([1, 10]), ws_strategy="subdiff")
+                    knobs.update(max_epochs=5000, p0=p0, ws_strategy="subdiff")
                 else:
-                    knobs.update(max_pn_iter=200, p0=rng.choice([1, 10]))
+                    knobs.update(max_pn_iter=200, p0=p0)
                 case = bbox.BBCase(solver, "sep", df, pen2, X, y, knobs, wts=wts)
+                if "mcp" in kind and fac > 1:
+                    # non-convex penalty: the null model is a *local* solution from alpha_max on; a cold start whose first
+                    # epoch runs before the intercept is optimal may legitimately settle in another stationary point,
+                    # so the run starts at the null model and has to stay there
+                    case.w_init = np.append(w0, b0) if fi else w0.copy()
                 res = bbox.run_case(case)
-                check_null(rep, case, res, fac, b0, fi)
+                check_null(rep, case, res, fac, b0, fi, free=free, w_null=w0)
         elif solver == "GroupBCD":
             groups, gp, gi = group_layout(rng, p)
             y = np.array([rng.gauss(0, 1) for _ in range(n)]) + shift
@@ -178,7 +189,7 @@ def run(ctx, rep):
                 check_null(rep, case, res, fac, b0, fi)
 
 
-def check_null(rep, case, res, fac, b0, fi):
+def check_null(rep, case, res, fac, b0, fi, free=(), w_null=None):
     rep.count(f"fit:{case.solver}:{'above' if fac > 1 else 'below'}", False, ("null", id(case)))
     sig = dict(case.signature(site=f"{case.solver}.solve"), kind="above-alpha-max" if fac > 1 else "below-alpha-max")
     if res["err"] is not None:
@@ -186,9 +197,31 @@ def check_null(rep, case, res, fac, b0, fi):
                     case=case.describe(), impl_output=res["err"])
         return
     w, obj, stop = res["out"]
-    if not stop <= case.knobs["tol"]:
-        return
     ww, bb = case.split(w)
+    pen_idx = [j for j in range(len(ww))] if ww.ndim > 1 else [j for j in range(len(ww)) if j not in set(free)]
+    if not stop <= case.knobs["tol"]:
+        # a convex problem with a generous budget that stays unsolved *and* keeps every penalised coefficient at
+        # zero below the critical strength never leaves the null model
+        generous = case.knobs.get("max_iter", 0) >= 100 and case.pen.kind in ("l1", "wl1", "l1l2")
+        if fac < 1 and generous and free and not np.any(ww[pen_idx] != 0):
+            rep.violate(f"{case.solver}: all penalised coefficients are still zero at alpha = {fac} x alpha_max after a generous "
+                        f"budget (stopping value {float(np.max(stop)):.2e})", dict(sig, kind="below-alpha-max-stuck"),
+                        case=case.describe(), impl_output=np.asarray(w).tolist())
+        return
+    if free:
+        if fac > 1:
+            if np.any(ww[pen_idx] != 0):
+                rep.violate(f"{case.solver}: non-zero penalised coefficients at alpha = {fac} x alpha_max", sig,
+                            case=case.describe(), impl_output=np.asarray(w).tolist())
+            elif not np.allclose(ww[list(free)], w_null[list(free)], atol=1e-5 * (1 + float(np.max(np.abs(w_null))))) or (
+                    fi and not np.allclose(bb, b0, atol=1e-5 * (1 + abs(float(b0))))):
+                rep.violate(f"{case.solver}: at alpha >= alpha_max the unpenalised part is not the loss-minimising one",
+                            dict(sig, kind="null-unpenalised"), case=case.describe(),
+                            impl_output=dict(w=np.asarray(w).tolist()), oracle=dict(w=w_null.tolist(), intercept=float(b0)))
+        elif not np.any(ww[pen_idx] != 0):
+            rep.violate(f"{case.solver}: all penalised coefficients are zero at alpha = {fac} x alpha_max (below the critical "
+                        "value)", sig, case=case.describe(), impl_output=np.asarray(w).tolist())
+        return
     if fac > 1:
         if np.any(ww != 0):
             rep.violate(f"{case.solver}: non-zero coefficients at alpha = {fac} x alpha_max", sig, case=case.describe(),
